@@ -21,3 +21,4 @@ CFG = {'level': 'exploration',
                     ('invalid:leading-zero-core', 1),
                     ('sort', 1)]},
  'assumptions': ['regexp transcription of the package doc grammar is correct', 'math/big and regexp are correct']}
+CFG['level_text'] += ' Sort is also given 2e4 (quick) / 1e6 (thorough) short lists, two thirds of them already ascending by precedence with the members of each tie in descending string order.'
